@@ -285,9 +285,19 @@ func (ot *objectTree) AddContentWithValidator(ctx context.Context, content Signa
 		OrderId:         objChange.OrderId,
 		ChangeSize:      len(rawChange.RawChange),
 	}
+	// the in-memory tree is changed before the change is stored (a snapshot has already reset it):
+	// if the change is refused or cannot be stored, get back to what the storage holds
+	restore := func() {
+		if _, rebuildErr := ot.rebuildFromStorage(nil, nil, nil); rebuildErr != nil {
+			log.Error("failed to rebuild after a failed local add", zap.Strings("heads", ot.Heads()), zap.Error(rebuildErr))
+		}
+	}
 	if validator != nil {
 		err = validator(storageChange)
 		if err != nil {
+			if content.IsSnapshot {
+				restore()
+			}
 			return
 		}
 	}
@@ -298,6 +308,7 @@ func (ot *objectTree) AddContentWithValidator(ctx context.Context, content Signa
 	added := []StorageChange{storageChange}
 	err = ot.storage.AddAll(ctx, added, ot.Heads(), ot.tree.root.Id)
 	if err != nil {
+		restore()
 		return
 	}
 
